@@ -480,9 +480,12 @@ impl FieldParser {
         input: &[u8],
         template: Template,
     ) -> IResult<&[u8], Vec<BTreeMap<usize, V9FieldPair>>> {
+        // A template whose fields add up to zero bytes describes no record at all:
+        // decode nothing instead of dividing by zero.
         let record_count = input
             .len()
-            .saturating_div(usize::from(template.get_total_size()));
+            .checked_div(usize::from(template.get_total_size()))
+            .unwrap_or(0);
 
         let (remaining, fields) = (0..record_count).fold(
             (input, Vec::new()), // Initial accumulator: (fields, remaining)
